@@ -56,7 +56,7 @@ static void gcd_big(const char* type, vt::Rng& r, int count) {
   uint64_t mx = (uint64_t)numeric_limits<T>::max();
   vector<uint64_t> B = {1, 2, 3, 6, 255, 256, 65535, 65536, mx, mx - 1, mx / 2, mx / 3, mx / 2 + 1, (mx / 6) * 6, (mx / 255) * 255};
   for (int i = 0; i < count; i++) {
-    uint64_t g = 1 + r.below(1000), x = r.next() % (mx / g + 1);
+    uint64_t g = 1 + r.below(1000), m = mx / g, x = m == UINT64_MAX ? r.next() : r.next() % (m + 1);
     B.push_back(x * g);
   }
   string as = "[", bs = "[", gs = "[", xs = "[", ys = "[";
